@@ -26,6 +26,7 @@ from xdis import wordcode
 from xdis.cross_dis import (
     findlabels,
     findlinestarts,
+    findlinestarts_36,
     findlinestarts_pre36,
     get_jump_target_maps,
 )
@@ -121,8 +122,11 @@ def init_opdata(loc, from_mod, version_tuple=None, is_pypy=False):
     loc["is_pypy"] = is_pypy
     loc["cmp_op"] = cmp_op
     loc["HAVE_ARGUMENT"] = HAVE_ARGUMENT
-    if version_tuple is None or version_tuple >= (3, 6):
+    if version_tuple is None or version_tuple >= (3, 8):
         loc["findlinestarts"] = findlinestarts
+    elif version_tuple >= (3, 6):
+        # no end-of-code cut-off before 3.8
+        loc["findlinestarts"] = findlinestarts_36
     else:
         # co_lnotab line increments are unsigned before 3.6
         loc["findlinestarts"] = findlinestarts_pre36
